@@ -19,13 +19,16 @@ def extract_tests(text):
     return tests
 
 
+CRATE_DIR = lambda crate: os.path.join("/verif", crate)  # set by ./check (VERIF_REPO)
+
+
 def replay(h, res, pid, kani_cmd, sh, verif, logs, env):
     os.makedirs(os.path.join(verif, "replays"), exist_ok=True)
     stamp = time.strftime("%Y%m%d-%H%M%S")
     base = os.path.join(verif, "replays", "%s-%s-%s" % (pid, h["harness"].split("::")[-1], stamp))
     log = base + ".kani.log"
     rc, to = sh(kani_cmd(h, "-Z concrete-playback --concrete-playback=print", slot=0), log,
-                max(3 * h["timeout"], 1800), os.path.join(verif, h["crate"]), h.get("guard", True))
+                max(3 * h["timeout"], 1800), CRATE_DIR(h["crate"]), h.get("guard", True))
     text = open(log, errors="replace").read()
     def check_msg(t):
         m = re.search(r"/// Check for `[^`]*`: (.*?)(?=\n///\s*\n|\n\s*\n|\n#\[test\])", t, re.S)
@@ -79,7 +82,7 @@ def run_tests(rec, verif, sh, logs):
     scratch = os.path.join(verif, ".scratch", "replay-%d" % os.getpid())
     if os.path.exists(scratch):
         shutil.rmtree(scratch)
-    shutil.copytree(os.path.join(verif, rec["crate"]), scratch,
+    shutil.copytree(CRATE_DIR(rec["crate"]), scratch,
                     ignore=shutil.ignore_patterns("target", ".target"))
     src = os.path.join(scratch, "src", modname + ".rs")
     modpath = "::".join(rec["harness"].split("::")[1:-1])
